@@ -14,7 +14,7 @@ PROPS = ["C13"]
 # (cfg, mode): "edges" = role A + per-transition emission + edge cover, "sim" = seeded TLC simulation
 SEQ = {
     "quick": [("AnnouncerMC_filter.cfg", "edges", None), ("AnnouncerMC_group.cfg", "edges", None),
-              ("AnnouncerMC_main.cfg", "edges", 50000)],
+              ("AnnouncerMC_main.cfg", "edges", 30000)],
     "thorough": [("AnnouncerMC_filter.cfg", "edges", None), ("AnnouncerMC_group.cfg", "edges", None),
                  ("AnnouncerMC_main.cfg", "edges", None), ("AnnouncerMC_wide_sim.cfg", "sim", None)],
 }
